@@ -306,6 +306,7 @@ func (fr *Frame) doCall(c ssa.CallInstruction, st *State, args []Term, recv *Ter
 		}
 	}
 	// unknown: havoc
+	fr.frameCall(st, c, ci.name, nil)
 	fe.assumedCallees[ci.name+" (unknown: heap havoc, arbitrary results)"] = true
 	fe.havocHeaps(st, "call "+ci.name, nil)
 	return fr.havocResults(c, base)
@@ -539,6 +540,8 @@ func (fr *Frame) applyContract(c ssa.CallInstruction, ci calleeInfo, st *State, 
 	case fc.Modifies != nil:
 		names := map[string]bool{}
 		envM := fr.contractEnv(c, ci, st, pre, args, recv, nil)
+		var frameObjs []string
+		general := false
 		for _, m := range fc.Modifies {
 			// object-specific frame: "<param>.<field>" only changes that object's entry
 			if i := strings.Index(m, "."); i > 0 {
@@ -550,17 +553,28 @@ func (fr *Frame) applyContract(c ssa.CallInstruction, ci calleeInfo, st *State, 
 						fe.declConst(fv, Sort(es))
 						fe.hset(st, h, fmt.Sprintf("(store %s %s %s)", old, obj.S, fv))
 					}
+					frameObjs = append(frameObjs, obj.S)
 					continue
 				}
 			}
-			for _, h := range fe.heapsMatching(m, ci) {
+			hs := fe.heapsMatching(m, ci)
+			for _, h := range hs {
 				names[h] = true
+			}
+			if !(fc.Fresh && strings.HasPrefix(m, "ghost:")) {
+				general = true
 			}
 		}
 		if len(names) > 0 {
 			fe.havocHeaps(st, "call "+ci.name, func(n string) bool { return names[n] })
 		}
+		if general {
+			fr.frameCall(st, c, ci.name, nil)
+		} else if len(frameObjs) > 0 {
+			fr.frameCall(st, c, ci.name, frameObjs)
+		}
 	default:
+		fr.frameCall(st, c, ci.name, nil)
 		fe.havocHeaps(st, "call "+ci.name, nil)
 	}
 	// results
